@@ -14,3 +14,9 @@ Record site := mkSite { s_file : string; s_func : string; s_hash : string; s_cla
 
 Definition same_site (f fn h : string) (s : site) : bool :=
   String.eqb f (s_file s) && String.eqb fn (s_func s) && String.eqb h (s_hash s).
+
+(* in-memory state inventory (Gen/C19_caches.v): declaration file, "Type.field" or variable name, hash of the normalised
+   list of statements that write it *)
+Record csite := mkCSite { c_file : string; c_owner : string; c_hash : string }.
+Definition same_csite (f o h : string) (s : csite) : bool :=
+  String.eqb f (c_file s) && String.eqb o (c_owner s) && String.eqb h (c_hash s).
